@@ -528,6 +528,7 @@ pub fn verif_locks_held() -> Vec<(&'static str, bool)> {
         ("circuitbreaker.BREAKER_MAP", BREAKER_MAP.try_write().is_err()),
         ("circuitbreaker.CURRENT_RULES", CURRENT_RULES.try_lock().is_err()),
         ("circuitbreaker.BREAKER_RULES", BREAKER_RULES.try_write().is_err()),
+        ("circuitbreaker.breaker_state", super::breaker::verif_state::held()),
     ]
 }
 
